@@ -91,6 +91,22 @@ def main():
                 selfcheck_problems.append('unit %s has no ledger entry' % r['unit'])
     for u in missing_units:
         selfcheck_problems.append('unit %s is not registered' % u)
+    order_scan = None
+    if spec.get('order_scan'):
+        from pyvc import setscan
+        with open(os.path.join(VERIF, 'checks', 'order_sites.json')) as fh:
+            allowed = {x['site']: x['discharged_by'] for x in json.load(fh)['sites']}
+        sites, nfiles = setscan.scan_repo(REPO)
+        order_scan = {'files': nfiles, 'sites': []}
+        for st_ in sites:
+            obligations += 1
+            if st_.key() in allowed:
+                discharged += 1
+                per_backend['syntactic-scan'] = per_backend.get('syntactic-scan', 0) + 1
+                order_scan['sites'].append({'site': st_.key(), 'discharged_by': allowed[st_.key()]})
+            else:
+                failed_obls.append(('order-scan', 'order-indep@' + st_.key(), 'ungenerated',
+                                    'a set-typed value is iterated, converted, rendered, merged or escapes at a site that is not on the allowlist'))
     if a.update_ledger:
         save_ledger(ledger)
 
@@ -189,6 +205,7 @@ def main():
                    'probes': r['probes'], 'wall_s': r.get('wall_s')} for r in results],
         'undischarged': [{'unit': u, 'obligation': n, 'status': s, 'detail': d[:300]} for u, n, s, d in failed_obls],
         'linkage': linkage,
+        'order_scan': order_scan,
         'proved_part': spec.get('proved_part', ''),
         'bounded_part': spec.get('bounded_part', ''),
         'evaluations': (bounded or {}).get('evaluations', 0),
